@@ -28,7 +28,7 @@ def valid(case):
 def generate(seed, tier):
     S = core.Streams(seed)
     fam = S['swarm'].choice(['multi_currency', 'multi_currency', 'multi_currency_supply', 'gold'])
-    ops, info = econgen.gen_program(seed, family=fam, tight=S['swarm'].random() < 0.7)
+    ops, info = econgen.gen_program(seed, family=fam, T=(S['knobs'].randint(2, 10) if tier == 'thorough' else None), tight=S['swarm'].random() < 0.7)
     case = {'kind': 'ECON', 'family': info['family'], 'ops': ops, 'misuse': None}
     if S['faults'].random() < 0.2:
         # the program really contains a cross-currency element (all generated AddSupplier-with-rule ops and first
